@@ -53,6 +53,9 @@ fn harnesses() -> Vec<Box<dyn Harness>> {
         Box::new(h_ps::PubSubHarness { ipc: true, prop: "C08" }),
         Box::new(h_rr::ReqRespHarness { ipc: false, prop: "C08" }),
         Box::new(h_rr::ReqRespHarness { ipc: true, prop: "C08" }),
+        // the connection's queues are dimensioned from the limits (buffer, borrow): inside the limits a release
+        // must never fail and nothing may be lost, whatever the interleaving of sender and receiver
+        Box::new(h_zc::ConnDataHarness { prop: "C08" }),
         Box::new(h_c09::PoolHarness { kind: "uis" }),
         Box::new(h_c09::PoolHarness { kind: "robust" }),
         Box::new(h_c09::PoolHarness { kind: "alloc" }),
